@@ -158,7 +158,11 @@ func (e *Engine) loadContracts() error {
 func (e *Engine) addContractFile(cf *ContractFile) {
 	e.files = append(e.files, cf)
 	for _, fc := range cf.Funcs {
-		if fc.Extern {
+		if fc.Extern && cf.PkgPath != "" && !strings.ContainsAny(fc.Key, "/(") && !strings.HasPrefix(fc.Key, "iface ") {
+			// assumed contract of an in-repo function (body not verified): listed as an assumption
+			e.contracts[cf.PkgPath+"::"+fc.Key] = fc
+			fc.Key = cf.PkgPath + "::" + fc.Key + " (in-repo, assumed)"
+		} else if fc.Extern {
 			e.contracts[fc.Key] = fc
 		} else {
 			e.contracts[cf.PkgPath+"::"+fc.Key] = fc
@@ -292,6 +296,9 @@ func (e *Engine) verifyFunc(fc *FuncContract) (res *FuncResult) {
 	defer func() {
 		res.Inlined, res.Externs, res.Natives, res.Noops = keysOf(r.inlined), keysOf(r.externs), keysOf(r.natives), keysOf(r.noops)
 		res.Notes = r.assumeNotes
+		for _, a := range r.axiomsUsed {
+			res.Notes = append(res.Notes, "assumed axiom: "+a)
+		}
 		res.Inputs = r.inputs
 		if x := recover(); x != nil {
 			if ee, ok := x.(execErr); ok {
